@@ -31,18 +31,25 @@ git -C $WT apply $OUT/patch.diff
 echo "demo with change: exit=$WITH (expect non-zero)   without change: exit=$WITHOUT (expect 0)"
 echo "existing-suite failures with change (other than the known-bad compliance test): "
 echo "$FAILED_TESTS" | grep -v "^$" | sed 's/^/   /'
-# 3. my checks
-cd /repo
-git diff --quiet || { echo "/repo dirty"; exit 2; }
-git apply $OUT/patch.diff || { echo "patch does not apply to /repo"; exit 2; }
+# 3. my checks - in a SCRATCH copy of /repo and of the harness (so that /repo itself is never
+# patched and a long run that builds from /repo is not disturbed)
+SV=/tmp/sv
+rm -rf $SV; mkdir -p $SV/verif
+git -C /repo worktree prune
+git -C /repo worktree add -q --detach $SV/repo HEAD || { echo "cannot create scratch worktree"; exit 2; }
+cp -r /verif/harness $SV/harness
+sed -i 's#path = "/repo"#path = "'$SV'/repo"#' $SV/harness/Cargo.toml
+cp /verif/known_findings.json $SV/verif/; cp -r /verif/replays $SV/verif/replays; rm -rf $SV/verif/replays/found
+( cd $SV/repo && git apply $OUT/patch.diff ) || { echo "patch does not apply to the current tree"; git -C /repo worktree remove --force $SV/repo; exit 2; }
+( cd $SV/harness && cargo build --release --offline -q 2>$SV/build.log ) || { echo "harness does not build with the change"; tail -5 $SV/build.log; }
 RES=""
 for c in $CHECKS; do
-  /verif/check $c quick > /tmp/seed_check_$c.log 2>&1; code=$?
+  VCHECK_STUCK_SECS=${VCHECK_STUCK_SECS:-120} timeout 1500 $SV/harness/target/release/vcheck $c quick --verif-dir $SV/verif > /tmp/seed_check_$c.log 2>&1; code=$?
   sig=$(grep -m2 "signature:" /tmp/seed_check_$c.log | sed 's/ *signature: //' | tr '\n' ' ')
   echo "check $c: exit=$code $sig"
   RES="$RES $c:exit=$code"
 done
-git checkout -- .
+cd /; git -C /repo worktree remove --force $SV/repo; rm -rf $SV
 python3 - "$ID" "$WITH" "$WITHOUT" "$RES" "$DEMO" <<'PY'
 import json, sys, os
 pid, w, wo, res, demo = sys.argv[1:6]
@@ -56,7 +63,7 @@ meta = {
  "origin": "independent sub-agent given only the property text and a scratch worktree of /repo",
  "needs_to_manifest": "see notes.md (written by the sub-agent)",
  "confirmed": {"demo_exit_with_change": int(w), "demo_exit_without_change": int(wo), "existing_suite": "see ran"},
- "ran": ["cargo test --offline --test %s (with and without the src change)" % demo, "cargo test --workspace --no-fail-fast --offline (with the change)", "git -C /repo apply patch.diff; ./check <ids> quick; git -C /repo checkout -- ."],
+ "ran": ["cargo test --offline --test %s (with and without the src change)" % demo, "cargo test --workspace --no-fail-fast --offline (with the change)", "patch.diff applied to a scratch worktree of /repo; harness rebuilt against it; vcheck <ids> quick"],
  "checks": res.strip().split(),
 }
 json.dump(meta, open(os.path.join(out, 'meta.json'), 'w'), indent=1)
